@@ -51,6 +51,11 @@ class Built:
             return {k: self.val(x) for k, x in v["v"]}
         if t == "ref":
             return self.objs[v["n"]]
+        if t == "tagged":          # tag(value) given to the constructor: the value is used AND recorded as a tag
+            from experimaestro import tag
+            return tag(self.val(v["v"]))
+        if t == "pyint":           # a Python int (given where a float is declared: a documented coercion)
+            return int(v["v"])
         if t == "out":
             return self.submit(v["n"], [])
         raise ValueError(t)
@@ -172,6 +177,7 @@ class Built:
                 cindex[id(xt)] = len(classes)
                 classes.append(dict(
                     py=xt.basetype.__qualname__,
+                    pymod=xt.basetype.__module__,
                     tid=list(xt.identifier.name.encode("utf-8")),
                     args=[dict(name=list(a.name.encode("utf-8")), ignored=bool(a.ignored),
                                gen=a.generator is not None, const=bool(a.constant), required=bool(a.required),
